@@ -157,6 +157,7 @@ def run(case, ctx, rng):
             h = make(name)
             if name in ('blake2b', 'blake2s'):
                 h(X, outlen=7, salt=bytes(range(w // 4)))
+                h(X, fanout=3, depth=2, leafl=9, noffset=1, ndepth=1, inner=5)
             elif name.startswith('blake'):
                 h(X, rng.getrandbits(64) | 1)
                 h(X, 5, 77)
@@ -166,7 +167,9 @@ def run(case, ctx, rng):
                 h.initstate(); h.update(M[:B])            # an abandoned stream
             h.initstate()
             h.update(M[:B])
-            return h.update(M[B:], padding=True), make(name)(M)
+            d = h.update(M[B:], padding=True)
+            h.initstate(); h.update(M[:B])                # abandoned again, then a one-shot call on the same object
+            return d, h(M)
         got = call(run_)
         det = dict(h=name, lenM=len(M))
         if is_exc(got):
